@@ -5,3 +5,6 @@ import NTV.Proofs.C18
 #print axioms NTV.C18.inverse_image
 #print axioms NTV.C18.supplement
 #print axioms NTV.C18.right_division
+#print axioms NTV.C18.image_mod_p_total
+#print axioms NTV.C18.image_mod_p
+#print axioms NTV.C18.image_mod_p_reduced
